@@ -1,0 +1,86 @@
+//go:build verif
+
+/*
+ * Licensed to the Apache Software Foundation (ASF) under one or more
+ * contributor license agreements.  See the NOTICE file distributed with
+ * this work for additional information regarding copyright ownership.
+ * The ASF licenses this file to You under the Apache License, Version 2.0
+ * (the "License"); you may not use this file except in compliance with
+ * the License.  You may obtain a copy of the License at
+ *
+ *     http://www.apache.org/licenses/LICENSE-2.0
+ *
+ * Unless required by applicable law or agreed to in writing, software
+ * distributed under the License is distributed on an "AS IS" BASIS,
+ * WITHOUT WARRANTIES OR CONDITIONS OF ANY KIND, either express or implied.
+ * See the License for the specific language governing permissions and
+ * limitations under the License.
+ */
+
+package getty
+
+// Verification contracts for property C13 (frame reader/writer), comment-only, tag verif.
+//
+// Seata v1 frame (oracle, from the protocol): da da 01 | u32 total | u16 headLen | u8 type |
+// u8 codec | u8 compress | u32 id | head map (headLen-16 bytes: s16 key, s16 value per entry) | body,
+// with headLen = 16 + len(head map) and total = headLen + len(body).
+//
+// "validhdr" says that the first 16 bytes of data can start a frame; a proper prefix of a valid frame
+// either is shorter than 16 bytes or has a valid header announcing more bytes than are available.
+
+//@ pkginit magics: len(magics) == 2 && magics[0] == 218 && magics[1] == 218
+
+//@ func (*RpcPackageHandler).Read
+//@   prop C13
+//@   let n := len(data)
+//@   let total := un32(data[3:7])
+//@   let hlen := un16(data[7:9])
+//@   let validhdr := n >= 16 && data[0] == 218 && data[1] == 218 && hlen >= 16 && total >= hlen && total <= 2147483647
+//@   let cm := codec.codecManager
+//@   requires n <= 2147483647
+//@   requires cm.codecMap[data[10]] == nil || cm.codecMap[data[10]][0] == nil
+//@   ensures need-more-header: n < 16 ==> result0 == nil && result2 == nil
+//@   ensures need-more-body: validhdr && n < total ==> result0 == nil && result2 == nil
+//@   ensures progress: result0 != nil ==> result1 > 0
+//@   ensures complete-len: validhdr && n >= total ==> result2 == nil && result1 == total && isT(result0, message.RpcMessage)
+//@   ensures complete-fields: validhdr && n >= total ==> result0.(message.RpcMessage).ID == sint32(un32(data[12:16])) && result0.(message.RpcMessage).Type == data[9] && result0.(message.RpcMessage).Codec == data[10] && result0.(message.RpcMessage).Compressor == data[11]
+//@   ensures complete-body: validhdr && n >= total && data[9] != 3 && data[9] != 4 && total > hlen && n >= hlen + 2 && cm.codecMap[data[10]] != nil && cm.codecMap[data[10]][sint16(un16(data[hlen:hlen+2]))] != nil ==> result0.(message.RpcMessage).Body == ufval("codec.dec", cm.codecMap[data[10]][sint16(un16(data[hlen:hlen+2]))], data[hlen+2:])
+//@   ensures heartbeat: validhdr && n >= total && data[9] == 3 ==> result0.(message.RpcMessage).Body == message.HeartBeatMessagePing
+//@   ensures no-false-error: validhdr ==> result2 == nil
+//@   nopanic
+
+//@ func decodeHeapMap
+//@   prop C13
+//@   requires in != nil && in.buf != nil
+//@   let c0 := content(in)
+//@   let k := some(string, "k")
+//@   let v := some(string, "v")
+//@   let rest := some(string, "rest")
+//@   let one := len(k) <= 65535 && len(v) <= 65535 && length == 4 + len(k) + len(v) && c0 == be16(len(k)) + k + be16(len(v)) + v + rest
+//@   modifies content(in)
+//@   ensures entry-roundtrip: one ==> result[k] == v && content(in) == rest
+//@   ensures empty: length == 0 ==> content(in) == c0
+//@   ensures nonnil: result != nil
+//@   nopanic
+//@   terminates
+//@   loop 1 invariant bounds: 0 <= readedLength && res != nil
+//@   loop 1 invariant entry: one ==> (readedLength == 0 && content(in) == c0) || (readedLength == length && content(in) == rest && res[k] == v)
+//@   loop 1 decreases length - readedLength
+
+//@ func encodeHeapMap
+//@   prop C13
+//@   ensures length: result1 == len(result0)
+//@   nopanic
+
+//@ func (*RpcPackageHandler).Write
+//@   prop C13
+//@   requires isT(pkg, message.RpcMessage)
+//@   let m := pkg.(message.RpcMessage)
+//@   requires m.Body != nil && implements(m.Body, message.MessageTypeAware)
+//@   plet hb := ite(called("encodeHeapMap#1"), string(callres("encodeHeapMap#1", 0)), "")
+//@   plet body := ite(called("(*CodecManager).Encode#1"), string(callres("(*CodecManager).Encode#1", 0)), "")
+//@   ensures noerr: result1 == nil
+//@   ensures layout: len(hb) <= 65519 && len(hb) + len(body) < 4294967280 ==> result0 == "\xda\xda\x01" + be32(16 + len(hb) + len(body)) + be16(16 + len(hb)) + b8(m.Type) + b8(m.Codec) + b8(m.Compressor) + be32(m.ID % pow2(32)) + hb + body
+//@   ensures heartbeat-no-body: (m.Type == 3 || m.Type == 4) ==> !called("(*CodecManager).Encode#1")
+//@   ensures body-encoded: m.Type != 3 && m.Type != 4 ==> called("(*CodecManager).Encode#1")
+//@   nopanic
